@@ -431,6 +431,76 @@ Section Legacy.
           end
       end.
 
+    (* The same three functions written the way the Go code keeps qp.level: as STATE of the long-lived
+       parser object, incremented at the entry of parseSubexpr and decremented when it returns
+       (`defer func() { qp.level-- }()`); the result carries the level after the return.
+       leak = true is the variant in which the NOT branch returns without the decrement. *)
+    Fixpoint ssub (leak : bool) (fuel depth pos : nat) (lv : list ltoken) (lvl : nat) {struct fuel}
+      : R (((ast * list ltoken) * nat) * nat) :=
+      match fuel with
+      | 0 => RFuel
+      | S f =>
+        let lvl' := S lvl in
+        if over stack lvl' then RPanic else
+        if over maxd lvl' then RErr else
+        if eof pos then RErr else
+        do c <- cur pos;
+        if N.eqb c 40 then
+          do p1 <- skip_sp (S pos);
+          do st <- sexpr leak f (S depth) p1 lv lvl';
+          let '(((e, lv2), p2), l2) := st in
+          if eof p2 then RErr else
+          do c2 <- cur p2;
+          if negb (N.eqb c2 41) then err_unexpected p2
+          else do p3 <- skip_sp (S p2); ROk (((e, lv2), p3), pred l2)
+        else
+          do st <- simple_term pos;
+          let '(name, p1) := st in
+          if eq_fold_ascii name kw_not_r then
+            do st2 <- ssub leak f depth p1 lv lvl';
+            let '(((ch, lv2), p2), l2) := st2 in
+            ROk (((NotN ch, lv2), p2), if leak then l2 else pred l2)
+          else
+            do st2 <- field_operand name p1 lv;
+            let '((k, lv2), p2) := st2 in
+            do e <- and_tree (length lv) k;
+            ROk (((e, lv2), p2), pred lvl')
+      end
+    with sexpr (leak : bool) (fuel depth pos : nat) (lv : list ltoken) (lvl : nat) {struct fuel}
+      : R (((ast * list ltoken) * nat) * nat) :=
+      match fuel with
+      | 0 => RFuel
+      | S f =>
+        do st <- ssub leak f depth pos lv lvl;
+        let '(((high, lv2), p), l1) := st in
+        sloop leak f depth None high p lv2 l1
+      end
+    with sloop (leak : bool) (fuel depth : nat) (low : option ast) (high : ast) (pos : nat)
+           (lv : list ltoken) (lvl : nat) {struct fuel} : R (((ast * list ltoken) * nat) * nat) :=
+      match fuel with
+      | 0 => RFuel
+      | S f =>
+        do st <- simple_term pos;
+        let '(op, p1) := st in
+        let lop := map to_lower op in
+        if runes_eqb lop kw_and_r then
+          do st2 <- ssub leak f depth p1 lv lvl;
+          let '(((rgt, lv2), p2), l2) := st2 in
+          sloop leak f depth low (AndN high rgt) p2 lv2 l2
+        else if runes_eqb lop kw_or_r then
+          do st2 <- ssub leak f depth p1 lv lvl;
+          let '(((rgt, lv2), p2), l2) := st2 in
+          sloop leak f depth (Some (join_or low high)) rgt p2 lv2 l2
+        else
+          match op with
+          | [] =>
+            do fin <- (if eof p1 then ROk true
+                       else do c <- cur p1; ROk (N.eqb c 41 && Nat.ltb 0 depth));
+            if fin then ROk (((join_or low high, lv), p1), lvl) else err_unexpected p1
+          | _ => RErr
+          end
+      end.
+
     Definition pfuel : nat := 2 * length data + 3.
 
     (* buildAst on the rune slice *)
@@ -438,6 +508,11 @@ Section Legacy.
       do p0 <- skip_sp 0;
       do st <- bexpr pfuel 0 p0 [] 0;
       let '((e, lv), _) := st in ROk (e, lv).
+
+    Definition build_ast_st (leak : bool) : R (ast * list ltoken) :=
+      do p0 <- skip_sp 0;
+      do st <- sexpr leak pfuel 0 p0 [] 0;
+      let '(((e, lv), _), _) := st in ROk (e, lv).
 
     (* ParseAggregationFilter on the rune slice: ROk None = (nil, nil) *)
     Definition agg_filter : R (option ltoken) :=
@@ -523,6 +598,12 @@ Section Legacy.
   Definition legacy_parse (q : bytes) : R (ast * list ltoken) :=
     do data <- runes_of q;
     do st <- build_ast data;
+    let '(e, lv) := st in ROk (finish e, lv).
+
+  (* ParseQuery with qp.level kept as state (leak: see ssub) *)
+  Definition legacy_parse_st (leak : bool) (q : bytes) : R (ast * list ltoken) :=
+    do data <- runes_of q;
+    do st <- build_ast_st data leak;
     let '(e, lv) := st in ROk (finish e, lv).
 
   (* ParseAggregationFilter on raw bytes *)
